@@ -40,18 +40,41 @@ def _check_tkn_n_args(n_args, token):
     return token.n_args == n_args
 
 
+def _check_open_array(stack, n=2):
+    # `;` and `}` can close only the rows/array opened by a `{`.
+    from ..errors import ParenthesesError
+    tokens = [t for t in stack if isinstance(t, (Function, Parenthesis))][-2 * n:]
+    if len(tokens) != 2 * n or not all(
+            t.attr.get('is_array') for t in tokens):
+        raise ParenthesesError()
+
+
 class Array(Function):
     _re = regex.compile(r'^\s*(?P<name>(?P<start>{)|(?P<end>})|(?P<sep>;))\s*')
 
+    @staticmethod
+    def _open(tokens, stack, builder, check_n):
+        n = len(stack)
+        Function('ARRAY(').ast(tokens, stack, builder, check_n=check_n)
+        for t in stack[n:]:
+            t.attr['is_array'] = True
+
+    @staticmethod
+    def _close(tokens, stack, builder):
+        token = Parenthesis(')')
+        token.attr['is_array'] = True
+        token.ast(tokens, stack, builder)
+        return token
+
     def ast(self, tokens, stack, builder, check_n=lambda t: t.n_args):
         if self.has_start:
-            Function('ARRAY(').ast(tokens, stack, builder, check_n=check_n)
-            Function('ARRAY(').ast(tokens, stack, builder, check_n=check_n)
+            self._open(tokens, stack, builder, check_n)
+            self._open(tokens, stack, builder, check_n)
         else:
-            token = Parenthesis(')')
-            token.ast(tokens, stack, builder)
+            _check_open_array(stack)
+            token = self._close(tokens, stack, builder)
             if self.has_sep:
                 check_n = functools.partial(_check_tkn_n_args, token.get_n_args)
-                Function('ARRAY(').ast(tokens, stack, builder, check_n=check_n)
+                self._open(tokens, stack, builder, check_n)
             else:
-                Parenthesis(')').ast(tokens, stack, builder)
+                self._close(tokens, stack, builder)
